@@ -55,11 +55,10 @@ ASSUMPTIONS = [
     'before the failure (Index(directory, source) updates the index stored in the directory)',
     'integer edges: no float key equal to an integer key beyond 2**63 is used (2**63 == 2.0**63 in Python, but the cache stores the one pickled '
     'and the other as REAL: the first assumption)',
-    'shared-directory schedules (S3): each client makes two calls; the removal is a call on the other client\'s own key or a popitem; the pair '
-    'setdefault x popitem(last=True) is run only with VERIF_C12_SETDEFAULT_VS_POPITEM=1 (setdefault is a lookup / add loop, and a popitem that '
-    'removes the key between the add and the second lookup makes it add the key a second time)',
-    'setdefault race (S4): setdefault is paired only with calls that remove nothing (setdefault, [] =, update, lookup); against a removal of the same '
-    'key see the S3 remark above',
+    'shared-directory schedules (S3): each client makes two calls; the removal is a call on the other client\'s own key or a popitem (which may '
+    'remove the key the other client has just stored: setdefault x popitem(last=True) included)',
+    'setdefault race (S4): setdefault of a missing key is paired with the other client\'s setdefault, [] =, update, lookup, del, pop and '
+    'popitem(last=True) of the same key',
     'contended histories contain no unpickle events (they build a handle with the default 60 s SQLite timeout) and handle events are not contended',
 ]
 
@@ -1622,13 +1621,12 @@ def shared_dir_race(ctx, res, stats, thorough):
     (its file is the only one there, so the directory is pruned) is placed at every point inside client 0's store of a file-backed
     value: after i = 0 .. all of client 0's events client 1 runs to its end, then client 0 goes on."""
     disk = shared_dir_disk()
-    # setdefault is a lookup / add loop: when the other client's popitem(last=True) removes the key between the add and the second
-    # lookup, setdefault adds it again (one setdefault, one popitem, key still there).  That pair is run only on request; everywhere
-    # else the removal cannot touch the key whose store it overlaps before that store's call has returned
-    both = os.environ.get('VERIF_C12_SETDEFAULT_VS_POPITEM') == '1'
-    combos = [(s, r) for s in S3_STORES for r in S3_REMOVALS if both or (s, r) != ('setdefault', 'popitem_last')]
+    # setdefault x popitem(last=True): the popitem may remove the key between setdefault's add and the lookup that follows it (the
+    # defect repaired by running the loop inside one transaction: known_findings.txt, fixed: property=C12); always run
+    combos = [(s, r) for s in S3_STORES for r in S3_REMOVALS]
     if not thorough:
-        combos = [(s, r) for j, (s, r) in enumerate(combos) if s == 'set' and r in ('replace_small', 'popitem_last') or (j + ctx.seed) % 3 == 0]
+        combos = [(s, r) for j, (s, r) in enumerate(combos)
+                  if s == 'set' and r in ('replace_small', 'popitem_last') or (s, r) == ('setdefault', 'popitem_last') or (j + ctx.seed) % 3 == 0]
     per_sig = {}
     nruns = 0
     for ci, (store, removal) in enumerate(combos):
@@ -1670,13 +1668,14 @@ def shared_dir_race(ctx, res, stats, thorough):
     stats['shared_dir_programs'] = stats.get('shared_dir_programs', 0) + len(combos)
 
 
-S4_OTHERS = ('setdefault', 'set', 'update', 'get')
+S4_OTHERS = ('setdefault', 'set', 'update', 'get', 'del', 'pop', 'popitem')
 
 
 def s4_programs(other, va, vb):
-    """Client 0: setdefault of the MISSING key 'ka' with default va, then a lookup.  Client 1: a call on the same key that removes nothing
-    (setdefault with another default, [] =, update, lookup), then a lookup."""
-    b = {'setdefault': ('setdefault', 'ka', vb), 'set': ('set', 'ka', vb), 'update': ('update', [('ka', vb)]), 'get': ('get', 'ka')}[other]
+    """Client 0: setdefault of the MISSING key 'ka' with default va, then a lookup.  Client 1: a call on the same key (setdefault with
+    another default, [] =, update, lookup, del, pop, popitem from the end where 'ka' is added), then a lookup."""
+    b = {'setdefault': ('setdefault', 'ka', vb), 'set': ('set', 'ka', vb), 'update': ('update', [('ka', vb)]), 'get': ('get', 'ka'),
+         'del': ('del', 'ka'), 'pop': ('pop', 'ka'), 'popitem': ('popitem', True)}[other]
     return [('k0', 0)], [[('setdefault', 'ka', va), ('get', 'ka')], [b, ('get', 'ka')]]
 
 
@@ -1684,8 +1683,7 @@ def setdefault_race(ctx, res, stats, thorough):
     """S4: setdefault of a missing key against another client's setdefault (other default) / assignment / update / lookup of the SAME key,
     the other client's calls placed at every point inside the setdefault (after i = 0 .. all of its events), inline and file-backed
     defaults: both clients' results and the final contents are those of some order of the calls on an OrderedDict -- in particular two
-    setdefault calls return the SAME value, the one that is stored.  (Calls that remove the key are not paired with setdefault: see the
-    assumptions.)"""
+    setdefault calls return the SAME value, the one that is stored, and one setdefault with one successful removal leaves the key absent."""
     per_sig = {}
     nruns = 0
     combos = [(o, fb) for o in S4_OTHERS for fb in (False, True)]
